@@ -25,3 +25,39 @@ claim(
     "symbolic prefix-sum analysis of running offsets (loop-carried symbolic integers, uninterpreted linear SUM over the list) and def-use analysis of per-element values across loops",
     "DESIGN.md section 2 C19",
 )
+
+claim(
+    "C02",
+    "Static: decides the structural preconditions of forward/reverse agreement and solver independence: solve_linear mode discipline (transposed factor in rev unless matrix symmetry is structurally evidenced), factor freshness, adjoint duality of the matrix-free (de)multiplexers, and a capable linear solver on every cyclic group for every option valuation. Does not decide numerical equality of totals.",
+    TB,
+    "event-log queries over the abstract interpreter (mode-specialised runs of solve_linear / compute_jacvec_product), group connection-graph cycle analysis",
+    "DESIGN.md section 2 C02",
+)
+claim(
+    "C08",
+    "Static: decides the three structural mechanisms of the method of images: rejection of ground effect without symmetry for every valuation, image strength -1 and the real/image split at nx in compute and compute_partials, and the stacking order in VortexMesh. Does not decide the far-field limit or numerical equivalence with an explicit image system.",
+    TB,
+    "valuation enumeration of VortexMesh.setup (must-raise), value extraction of the strength list and split slices from the abstract interpreter",
+    "DESIGN.md section 2 C08",
+)
+claim(
+    "C10",
+    "Static: decides symmetry of the element tables, rigid-body null space and cantilever flexibility of the bending blocks (closed form, sympy), that both stiffness transformations are congruences, that assembly keeps symmetry and that exactly the six DOFs of the documented root node are clamped. Does not decide displacement values.",
+    TB,
+    "constant folding of module tables + sympy identities; AST pattern analysis of einsum congruences and the sparse assembly; symbolic clamp index per option valuation",
+    "DESIGN.md section 2 C10",
+)
+claim(
+    "C12",
+    "Static: decides that the coupled group closes the struct->mesh->aero->loads->struct cycle per surface, carries an iterative nonlinear solver that raises on non-convergence plus a capable linear solver, receives no feedback from downstream subsystems, and that no code keeps state outside the instance (flight points isolated). Does not decide convergence or equality between solvers.",
+    TB,
+    "group connection-graph analysis per option valuation; effect analysis for shared state",
+    "DESIGN.md section 2 C12",
+)
+claim(
+    "C20",
+    "Static: decides that each documented invalid set-up reaches a raise on every path (must-pass-through), that the entry groups validate dictionary keys and the validators warn, that no store / in-place operation reaches an alias of a user array (surface / options values, helper arguments), and that there is no unseeded random source or shared mutable state. Does not decide finiteness of outputs.",
+    TB,
+    "must-pass-through checks on the AST, alias/effect analysis over the abstract interpreter's store events",
+    "DESIGN.md section 2 C20",
+)
